@@ -24,6 +24,7 @@ import (
 	"os"
 	"path/filepath"
 	"reflect"
+	"runtime/pprof"
 	"sort"
 	"strconv"
 	"strings"
@@ -49,6 +50,10 @@ type msgInfo struct {
 	// roundTrips is false for layouts that cannot round trip by construction (a rest
 	// field that is not last swallows the following fields on decode).
 	roundTrips bool
+	// otherEnc: reference encoding of base assignment 1, marshalled after every round trip's
+	// Marshal call to see that an earlier result is not overwritten by a later call
+	otherVals []sshwire.Value
+	otherEnc  []byte
 }
 
 var bigIntPtr = reflect.TypeOf((*big.Int)(nil))
@@ -135,10 +140,31 @@ func describe(ptr interface{}, synthetic bool) (msgInfo, bool) {
 	return mi, true
 }
 
-// fill builds a new *struct holding vals.
+const (
+	spareCap  = 8
+	sentinelB = 0xA5
+	sentinelS = "\x00SENTINEL"
+)
+
+// ownedBytes returns a private copy of b with spareCap sentinel bytes of spare capacity.
+func ownedBytes(b []byte) []byte {
+	out := make([]byte, len(b), len(b)+spareCap)
+	copy(out, b)
+	tail := out[len(b):cap(out)]
+	for i := range tail {
+		tail[i] = sentinelB
+	}
+	return out
+}
+
+// fill builds a new *struct holding vals. Every slice is a private copy with spare
+// capacity that holds sentinels (Marshal reads the argument, it never appends to it);
+// mpint fields whose model values are the same *big.Int share one *big.Int in the struct
+// as well (a value used twice in a message, or in two messages).
 func (mi *msgInfo) fill(vals []sshwire.Value) reflect.Value {
 	p := reflect.New(mi.typ)
 	s := p.Elem()
+	var shared map[*big.Int]*big.Int
 	for i, f := range mi.layout {
 		fv := s.Field(mi.fields[i])
 		v := vals[i]
@@ -151,21 +177,96 @@ func (mi *msgInfo) fill(vals []sshwire.Value) reflect.Value {
 			if fv.Kind() == reflect.String {
 				fv.SetString(string(v.B))
 			} else {
-				fv.SetBytes(append([]byte(nil), v.B...))
+				fv.SetBytes(ownedBytes(v.B))
 			}
 		case sshwire.Rest:
-			fv.SetBytes(append([]byte(nil), v.B...))
+			fv.SetBytes(ownedBytes(v.B))
 		case sshwire.Fixed:
 			for j := 0; j < f.N; j++ {
 				fv.Index(j).SetUint(uint64(v.B[j]))
 			}
 		case sshwire.Mpint:
-			fv.Set(reflect.ValueOf(new(big.Int).Set(v.Int)))
+			if shared == nil {
+				shared = map[*big.Int]*big.Int{}
+			}
+			n := shared[v.Int]
+			if n == nil {
+				n = new(big.Int).Set(v.Int)
+				shared[v.Int] = n
+			}
+			fv.Set(reflect.ValueOf(n))
 		case sshwire.NameList:
-			fv.Set(reflect.ValueOf(append([]string(nil), v.Names...)).Convert(fv.Type()))
+			l := make([]string, len(v.Names), len(v.Names)+2)
+			copy(l, v.Names)
+			l[:cap(l)][len(l)], l[:cap(l)][len(l)+1] = sentinelS, sentinelS
+			fv.Set(reflect.ValueOf(l).Convert(fv.Type()))
 		}
 	}
 	return p
+}
+
+// intact reports what Marshal changed in its argument p (filled from vals): a field
+// value, or a sentinel in the spare capacity of a slice.
+func (mi *msgInfo) intact(p reflect.Value, vals []sshwire.Value) string {
+	if ok, i := valsEqual(mi.layout, vals, mi.read(p)); !ok {
+		return "field " + mi.typ.Field(mi.fields[i]).Name + " changed"
+	}
+	s := p.Elem()
+	for i, f := range mi.layout {
+		fv := s.Field(mi.fields[i])
+		switch {
+		case (f.Kind == sshwire.String || f.Kind == sshwire.Rest) && fv.Kind() == reflect.Slice:
+			b := fv.Bytes()
+			if cap(b) != len(b)+spareCap {
+				return "field " + mi.typ.Field(mi.fields[i]).Name + " was re-sliced"
+			}
+			for _, x := range b[len(b):cap(b)] {
+				if x != sentinelB {
+					return "spare capacity of field " + mi.typ.Field(mi.fields[i]).Name + " was written to"
+				}
+			}
+		case f.Kind == sshwire.NameList:
+			if fv.Cap() != fv.Len()+2 {
+				return "field " + mi.typ.Field(mi.fields[i]).Name + " was re-sliced"
+			}
+			full := fv.Slice(0, fv.Cap())
+			if full.Index(fv.Len()).String() != sentinelS || full.Index(fv.Len()+1).String() != sentinelS {
+				return "spare capacity of field " + mi.typ.Field(mi.fields[i]).Name + " was written to"
+			}
+		}
+	}
+	return ""
+}
+
+// clobber overwrites everything the struct points to (the caller reuses its buffers as
+// soon as Marshal has returned).
+func (mi *msgInfo) clobber(p reflect.Value) {
+	s := p.Elem()
+	for i, f := range mi.layout {
+		fv := s.Field(mi.fields[i])
+		switch f.Kind {
+		case sshwire.String, sshwire.Rest:
+			if fv.Kind() == reflect.Slice {
+				b := fv.Bytes()
+				b = b[:cap(b)]
+				for j := range b {
+					b[j] ^= 0xFF
+				}
+			}
+		case sshwire.Mpint:
+			if !fv.IsNil() {
+				n := fv.Interface().(*big.Int)
+				for j, w := range n.Bits() {
+					n.Bits()[j] = ^w
+				}
+				n.SetInt64(-0x5a5a5a)
+			}
+		case sshwire.NameList:
+			for j := 0; j < fv.Len(); j++ {
+				fv.Index(j).SetString("clobbered,")
+			}
+		}
+	}
 }
 
 // read extracts the field values of a *struct.
@@ -206,6 +307,21 @@ func (mi *msgInfo) read(p reflect.Value) []sshwire.Value {
 		}
 	}
 	return vals
+}
+
+// hasOwnedField: some field is a string, name-list or mpint (copied out of the packet).
+func (mi *msgInfo) hasOwnedField() bool {
+	for i, f := range mi.layout {
+		switch f.Kind {
+		case sshwire.Mpint, sshwire.NameList:
+			return true
+		case sshwire.String:
+			if mi.typ.Field(mi.fields[i]).Type.Kind() == reflect.String {
+				return true
+			}
+		}
+	}
+	return false
 }
 
 // refEncode is the specification's encoding of a message: type byte (first tag) + fields.
@@ -587,6 +703,23 @@ func (k *checker) roundTrip(mi *msgInfo, vals []sshwire.Value, what string) []by
 	if pan, v, _ := vf.Protect(func() { got2 = ssh.Marshal(p.Elem().Interface()) }); pan || !bytes.Equal(got2, want) {
 		c.Violation("Marshal(struct value) differs from Marshal(pointer) for "+mi.name, map[string]any{"case": what, "panic": fmt.Sprint(v)})
 	}
+	// A: Marshal only reads its argument ...
+	if why := mi.intact(p, vals); why != "" {
+		c.Violation("Marshal modifies its argument ("+mi.name+")", map[string]any{"case": what, "what": why})
+	}
+	// ... its result does not share memory with the argument (the caller wipes / reuses the
+	// message's buffers and big.Ints right away) ...
+	mi.clobber(p)
+	if !bytes.Equal(got, want) || !bytes.Equal(got2, want) {
+		c.Violation("Marshal output changes when the caller overwrites the marshalled message ("+mi.name+")", map[string]any{"case": what})
+		return want
+	}
+	// ... nor with the result of a later Marshal call.
+	var got3 []byte
+	if pan, _, _ := vf.Protect(func() { got3 = ssh.Marshal(mi.fill(mi.otherVals).Interface()) }); pan || !bytes.Equal(got3, mi.otherEnc) || !bytes.Equal(got, want) {
+		c.Violation("Marshal output is overwritten by a later Marshal call ("+mi.name+")", map[string]any{"case": what})
+		return want
+	}
 	if !mi.roundTrips {
 		return want
 	}
@@ -611,6 +744,13 @@ func (k *checker) roundTrip(mi *msgInfo, vals []sshwire.Value, what string) []by
 	return want
 }
 
+func (k *checker) prepare(mi *msgInfo) {
+	if len(mi.layout) > 0 && mi.otherVals == nil {
+		mi.otherVals = k.a.base(mi, 1)
+		mi.otherEnc, _ = mi.refEncode(mi.otherVals)
+	}
+}
+
 func clip(b []byte) []byte {
 	if len(b) > 96 {
 		return b[:96]
@@ -632,6 +772,10 @@ func (k *checker) conform(mi *msgInfo, data []byte, what string, t *tally) {
 		c.Violation("Unmarshal panics ("+mi.name+", "+what+")", map[string]any{"input": fmt.Sprintf("%x", clip(data)), "len": len(data), "panic": fmt.Sprint(pv)})
 		return
 	}
+	if !bytes.Equal(in, data) {
+		c.Violation("Unmarshal writes to its input ("+mi.name+")", map[string]any{"input": fmt.Sprintf("%x", clip(data)), "after": fmt.Sprintf("%x", clip(in))})
+		return
+	}
 	if (err == nil) != (werr == nil) {
 		cls := "Unmarshal accepts what RFC decoding rejects"
 		if err != nil {
@@ -648,6 +792,23 @@ func (k *checker) conform(mi *msgInfo, data []byte, what string, t *tally) {
 	if ok, i := valsEqual(mi.layout, want, mi.read(out)); !ok {
 		c.Violation("Unmarshal value differs from RFC decoding ("+mi.name+", "+what+")", map[string]any{"input": fmt.Sprintf("%x", clip(data)), "field": mi.typ.Field(mi.fields[i]).Name})
 		return
+	}
+	// the packet buffer is reused by the caller: only []byte fields are documented to alias
+	// it; strings, name-lists, mpints, arrays and integers must survive its being overwritten
+	if mi.hasOwnedField() {
+		for i := range in {
+			in[i] ^= 0xFF
+		}
+		back := mi.read(out)
+		for i, f := range mi.layout {
+			if (f.Kind == sshwire.String || f.Kind == sshwire.Rest) && out.Elem().Field(mi.fields[i]).Kind() == reflect.Slice {
+				continue
+			}
+			if !sshwire.Equal(f, want[i], back[i]) {
+				c.Violation("Unmarshal result changes when the packet buffer is overwritten ("+mi.name+")", map[string]any{"input": fmt.Sprintf("%x", clip(data)), "field": mi.typ.Field(mi.fields[i]).Name})
+				return
+			}
+		}
 	}
 	// the same input into a destination that still holds an earlier message (callers reuse
 	// message structs): every field must be overwritten, the result is the same
@@ -682,11 +843,19 @@ func run(c *vf.Ctx) {
 		"(2) mpint primitives intLength/marshalInt/writeInt/parseInt on the whole mpint grid and parseInt on every body of <=2 bytes; prefix-length 0..80 x mpint-length 0..80 grid through Marshal (buffer growth). " +
 		"(3) totality + conformance: for every struct, every byte string of length <=2, every 3-byte string whose first byte is an accepted type byte (all 3-byte strings in thorough), and for each sampled valid encoding: every truncation, every value 0..255 of every length-prefix byte, " +
 		"whole length := {0,1,rem-1,rem,rem+1,2^31-1,2^31,2^32-1}, every byte ^01/^80/^ff, all 256 type bytes, 1..5 trailing bytes; Unmarshal must not panic and must accept exactly what the RFC model accepts with equal values. " +
-		"decode: every byte string of length <=3 and every fault case above. non-trivial = distinct (struct, fault kind, position) resp. (struct, field, value index)")
+		"decode: every byte string of length <=3 and every fault case above. non-trivial = distinct (struct, fault kind, position) resp. (struct, field, value index). " +
+		"hardening dimensions on every round trip: (A) the marshalled struct's slices are private copies with sentinels in their spare capacity; after Marshal the struct must be unchanged (values, slice headers, sentinels, *big.Int values), then everything it points to is overwritten and the output must still be the model's, " +
+		"and a later Marshal of another message must not change it; Unmarshal/decode must leave the packet unchanged, and string / name-list / mpint / array / integer fields must survive the packet buffer being overwritten ([]byte fields alias it by documentation); intLength/marshalInt/writeInt must not modify n, parseInt not its input; " +
+		"(B) every struct with >=2 mpint fields with ONE *big.Int in all of them, over the whole mpint alphabet; Unmarshal into a struct holding an earlier message; (C) mpints of 65535/65536 (thorough 65537) bytes through the primitives and through Marshal/Unmarshal of 3 structs (thorough: every struct with an mpint field), a 2^24-byte string field (thorough: string, []byte and rest fields of 2^24 and 2^24+1 bytes)")
 	c.Assume("math/big and reflect are correct; field values outside the stated alphabets are not enumerated")
 	c.Assume("names in name-lists are non-empty and comma-free (RFC 4251 section 5); *big.Int fields are non-nil")
 
 	k := &checker{c: c, a: newAlphabet(c)}
+	if f := os.Getenv("C24_PPROF"); f != "" {
+		w, _ := os.Create(f)
+		pprof.StartCPUProfile(w)
+		defer pprof.StopCPUProfile()
+	}
 
 	// ---- struct inventory
 	var msgs []*msgInfo
@@ -713,6 +882,9 @@ func run(c *vf.Ctx) {
 		msgs = append(msgs, &m)
 	}
 	c.Set("structs", len(msgs))
+	for _, mi := range msgs {
+		k.prepare(mi)
+	}
 
 	// ---- (2) mpint primitives
 	phase("inventory done")
@@ -763,6 +935,81 @@ func run(c *vf.Ctx) {
 			}
 		}
 	}
+	phase("field sweeps done")
+	// shared *big.Int: every struct with two or more mpint fields, all of them pointing to
+	// ONE *big.Int, for every value of the mpint alphabet (Marshal reads it once per field)
+	var ljobs []func()
+	for _, mi := range msgs {
+		mi := mi
+		var mp []int
+		for fi, f := range mi.layout {
+			if f.Kind == sshwire.Mpint {
+				mp = append(mp, fi)
+			}
+		}
+		if len(mp) < 2 {
+			continue
+		}
+		ljobs = append(ljobs, func() {
+			for vi, n := range k.a.mpints {
+				vals := k.a.base(mi, 1)
+				for _, fi := range mp {
+					vals[fi] = sshwire.Value{Int: n}
+				}
+				k.roundTrip(mi, vals, fmt.Sprintf("one *big.Int in %d fields, value#%d", len(mp), vi))
+			}
+			c.Nontrivial("shared-mpint/" + mi.name)
+		})
+	}
+	// long values (C): mpints of 65535..65537 bytes in three structs (thorough: every struct with an mpint field);
+	// string / []byte / rest fields of 2^24 and 2^24+1 bytes in the all-kinds struct
+	long := longMpints(c)
+	pool := c.Bytes("c24-long", 0, 1<<16)
+	huge := bytes.Repeat(pool, 1<<8+1)[:1<<24+1]
+	for _, mi := range msgs {
+		mi := mi
+		for fi, f := range mi.layout {
+			fi := fi
+			if f.Kind == sshwire.Mpint {
+				if !c.Thorough && mi.name != "synSig" && mi.name != "synGrow" && mi.name != "kexDHReplyMsg" {
+					break // quick: three structs (mpint first / in the middle / last); thorough: every struct
+				}
+				for vi, n := range long {
+					vi, n := vi, n
+					ljobs = append(ljobs, func() {
+						vals := k.a.base(mi, 1)
+						vals[fi] = sshwire.Value{Int: n}
+						k.roundTrip(mi, vals, fmt.Sprintf("long mpint #%d in field %s", vi, mi.typ.Field(mi.fields[fi]).Name))
+					})
+				}
+				c.Nontrivial("long-mpint/" + mi.name)
+				break // the first mpint field of each struct
+			}
+		}
+		if mi.name != "synAllKinds" {
+			continue
+		}
+		for fi, f := range mi.layout {
+			if f.Kind != sshwire.String && f.Kind != sshwire.Rest {
+				continue
+			}
+			for _, n := range []int{1 << 24, 1<<24 + 1} {
+				fi, n := fi, n
+				if !c.Thorough && !(mi.typ.Field(mi.fields[fi]).Name == "Str" && n == 1<<24) {
+					continue // quick: the string field with exactly 2^24 bytes only (each case moves ~10 x 16 MiB)
+				}
+				ljobs = append(ljobs, func() {
+					vals := k.a.base(mi, 1)
+					vals[fi] = sshwire.Value{B: huge[:n]}
+					k.roundTrip(mi, vals, fmt.Sprintf("%d-byte value in field %s", n, mi.typ.Field(mi.fields[fi]).Name))
+					c.Nontrivial(fmt.Sprintf("long-string/%s/%d", mi.typ.Field(mi.fields[fi]).Name, n))
+				})
+			}
+		}
+	}
+	phase("long jobs built")
+	c.ParallelFor(len(ljobs), func(i int) { ljobs[i]() })
+	phase("shared/long values done")
 	if c.WantSample() {
 		mi := msgs[1]
 		enc, _ := mi.refEncode(k.a.base(mi, 1))
@@ -967,9 +1214,57 @@ func (k *checker) fieldless(mi *msgInfo) {
 	c.Eval(2)
 }
 
+// longMpints (C/E): magnitudes of 65535 and 65536 (thorough also 65537) bytes - the second and
+// third length octet change, the padding byte pushes the body over 2^16 - with the leading
+// byte 01 / 80 (thorough also 7f / ff), both signs, and +-2^(8l-1).
+func longMpints(c *vf.Ctx) []*big.Int {
+	var out []*big.Int
+	lens, leads := []int{65535, 65536}, []byte{0x01, 0x80}
+	if c.Thorough {
+		lens, leads = []int{65535, 65536, 65537}, []byte{0x01, 0x7f, 0x80, 0xff}
+	}
+	for _, l := range lens {
+		raw := c.Bytes("longmpint", l, l)
+		for _, lead := range leads {
+			b := append([]byte(nil), raw...)
+			b[0] = lead
+			v := new(big.Int).SetBytes(b)
+			out = append(out, v, new(big.Int).Neg(v))
+		}
+	}
+	// exactly -2^(8l-1): minimal form 80 00..00 without padding
+	for _, l := range []int{65535, 65536} {
+		out = append(out, new(big.Int).Neg(pow2(8*l-1)), pow2(8*l-1))
+	}
+	return out
+}
+
 func (k *checker) mpintPrimitives() {
 	c := k.c
-	for i, n := range k.a.mpints {
+	k.mpintValues(k.a.mpints)
+	long := longMpints(c)
+	k.mpintValues(long)
+	c.Set("mpint_long_values", len(long))
+	k.mpintBodies()
+}
+
+func (k *checker) mpintValues(list []*big.Int) {
+	for i, n := range list {
+		k.mpintOne(i, n)
+	}
+}
+
+func (k *checker) mpintOne(i int, n *big.Int) {
+	c := k.c
+	{
+		// A: the primitives only read n
+		orig := new(big.Int).Set(n)
+		defer func() {
+			if n.Cmp(orig) != 0 {
+				c.Violation("intLength/marshalInt/writeInt modify their *big.Int argument", map[string]any{"n": clipS(orig.Text(16)), "after": clipS(n.Text(16))})
+				n.Set(orig)
+			}
+		}()
 		want := sshwire.EncodeMpint(n)
 		body := want[4:]
 		if !sshwire.MpintMinimal(body) {
@@ -979,11 +1274,11 @@ func (k *checker) mpintPrimitives() {
 		var l int
 		if pan, v, _ := vf.Protect(func() { l = ssh.VerifC24IntLength(n) }); pan {
 			c.Violation("intLength panics", map[string]any{"n": clipS(n.Text(16)), "panic": fmt.Sprint(v)})
-			continue
+			return
 		}
 		if l != len(want) {
 			c.Violation("intLength differs from minimal two's complement length", map[string]any{"n": clipS(n.Text(16)), "got": l, "want": len(want)})
-			continue
+			return
 		}
 		buf := make([]byte, l+3)
 		for j := range buf {
@@ -992,7 +1287,7 @@ func (k *checker) mpintPrimitives() {
 		var w int
 		if pan, v, _ := vf.Protect(func() { w = ssh.VerifC24MarshalInt(buf, n) }); pan {
 			c.Violation("marshalInt panics", map[string]any{"n": clipS(n.Text(16)), "panic": fmt.Sprint(v)})
-			continue
+			return
 		}
 		if w != len(want) || !bytes.Equal(buf[:w], want) || !bytes.Equal(buf[w:], []byte{0xA5, 0xA5, 0xA5}[:len(buf)-w]) {
 			c.Violation("marshalInt output is not the minimal two's complement mpint", map[string]any{"n": clipS(n.Text(16)), "got": fmt.Sprintf("%x", clip(buf[:w])), "want": fmt.Sprintf("%x", clip(want))})
@@ -1000,7 +1295,7 @@ func (k *checker) mpintPrimitives() {
 		var bb bytes.Buffer
 		if pan, pv, _ := vf.Protect(func() { ssh.VerifC24WriteInt(&bb, n) }); pan {
 			c.Violation("writeInt panics", map[string]any{"n": clipS(n.Text(16)), "panic": fmt.Sprint(pv)})
-			continue
+			return
 		}
 		if !bytes.Equal(bb.Bytes(), want) {
 			c.Violation("writeInt output is not the minimal two's complement mpint", map[string]any{"n": clipS(n.Text(16))})
@@ -1012,10 +1307,13 @@ func (k *checker) mpintPrimitives() {
 		var ok bool
 		if pan, pv, _ := vf.Protect(func() { got, rest, ok = ssh.VerifC24ParseInt(in) }); pan {
 			c.Violation("parseInt panics", map[string]any{"n": clipS(n.Text(16)), "panic": fmt.Sprint(pv)})
-			continue
+			return
 		}
 		if !ok || got.Cmp(n) != 0 || !bytes.Equal(rest, []byte{0xde, 0xad}) {
 			c.Violation("parseInt(marshalInt(n)) != n", map[string]any{"n": clipS(n.Text(16)), "ok": ok})
+		}
+		if !bytes.Equal(in[:len(want)], want) {
+			c.Violation("parseInt writes to its input", map[string]any{"n": clipS(n.Text(16))})
 		}
 		if n.Sign() != 0 && len(body)%1 == 0 {
 			c.Nontrivial(fmt.Sprintf("mpint/%d/%d/%x", n.Sign(), len(body), body[0]&0x80))
@@ -1024,6 +1322,10 @@ func (k *checker) mpintPrimitives() {
 			c.Sample(map[string]any{"mpint": n.String(), "encoding": fmt.Sprintf("%x", want)})
 		}
 	}
+}
+
+func (k *checker) mpintBodies() {
+	c := k.c
 	c.Set("mpint_grid", len(k.a.mpints))
 	// parseInt on every body of <= 2 bytes (non-minimal forms included): value per two's complement
 	bodies := [][]byte{{}}
@@ -1118,6 +1420,7 @@ func (k *checker) growGrid(msgs []*msgInfo) {
 	if mi == nil {
 		d, _ := describe(new(synGrow), true)
 		mi = &d
+		k.prepare(mi)
 	}
 	c := k.c
 	maxN := 80
@@ -1214,6 +1517,10 @@ func (k *checker) decodeCheck(msgs []*msgInfo, samples []encSample) {
 				cls = "decode panics on the empty packet"
 			}
 			c.Violation(cls, map[string]any{"input": fmt.Sprintf("%x", clip(data)), "panic": fmt.Sprint(pv)})
+			return
+		}
+		if !bytes.Equal(in, data) {
+			c.Violation("decode writes to its input", map[string]any{"input": fmt.Sprintf("%x", clip(data)), "after": fmt.Sprintf("%x", clip(in))})
 			return
 		}
 		if err == nil && v == nil {
